@@ -27,6 +27,15 @@ class DryReal:
         project = layouts.gen_project(rng, mode=rng.choice(["plain", "bytes"]), allow_mixed=False,
                                       vcs=rng.choice(["none", "fake"]), legacy=leg,
                                       allow_odd_paths=True, invalid_utf8=True)
+        cg = project.get("cfg_glob")
+        if cg and rng.random() < 0.6:
+            # the config file has an entry of its own, under its exact name, whose only pattern is for another line: bumpver
+            # then adds no pattern for the current_version line - in a dry run and in a real run alike
+            old_key = cg["key"]
+            cg["key"], cg["kind"] = project["syntax"], "exact"
+            project["cfg"]["file_patterns"] = [[project["syntax"] if k == old_key else k, v]
+                                               for k, v in project["cfg"]["file_patterns"]]
+            project["own_entry_without_version_line"] = True
         if project["vcs"] is not None and (any(ch in f["path"] for f in project["files"] for ch in " '\"") or
                                            any(ord(ch) > 127 for f in project["files"] for ch in f["path"])):
             project["vcs"] = None
@@ -68,6 +77,8 @@ class DryReal:
                       "files": sorted(regime)}
         if project.get("invalid_utf8"):
             ctx.probe("file_with_invalid_utf8_byte")
+        if project.get("own_entry_without_version_line"):
+            ctx.probe("config_entry_that_skips_the_version_line")
         for op in case["ops"]:
             clock = tc.step_clock(ctx, clock, op.get("delta", 0), two_digit)
             flags = dict(op.get("flags", {}))
